@@ -38,22 +38,27 @@ type Site struct {
 	Insert   string `json:"insert,omitempty"`
 	// For renames (duplicate parameter): the replacement text.
 	Replace string `json:"replace,omitempty"`
+	// Alt is an identifier of the same sigil whose name exists in the module
+	// only in ANOTHER namespace (e.g. %g where only @g is defined): the
+	// reference must not be bound to that other entity.
+	Alt string `json:"alt,omitempty"`
 }
 
 // C05Scenario is one faulted parse.
 type C05Scenario struct {
 	Module string `json:"module"`
 	Index  int    `json:"index"` // index of the site in the module's site list
+	Cross  bool   `json:"cross,omitempty"` // redirect to Site.Alt (a name defined in another namespace) instead of a fresh name
 	Site   Site   `json:"site"`
 	Orders int    `json:"orders"`     // number of seeded translation orders besides the canonical one
 	Seed   uint64 `json:"order_seed"` // seed of those orders
 }
 
 type siteWalker struct {
-	text  string
-	sites []Site
-	// names already present in the text (to pick fresh ones)
-	fresh int
+	text    string
+	sites   []Site
+	globals []string // names (without sigil) of named globals/functions
+	locals  []string // names of named locals, parameters, labels
 }
 
 func nodeKids(n *ast.Node) []*ast.Node { return n.Children(selector.Any) }
@@ -82,6 +87,9 @@ func (w *siteWalker) walk(n *ast.Node, parent *ast.Node, idxInParent int, sameTy
 		case ll.GlobalDecl, ll.IndirectSymbolDef, ll.FuncHeader:
 			if sameTypeIdx == 0 {
 				// The name being defined; duplication is handled at the entity.
+				if t := n.Text(); !isUnnamedIdent(t) {
+					w.globals = append(w.globals, t[1:])
+				}
 				break
 			}
 			w.add("use:global (initialiser/aliasee)", n)
@@ -98,10 +106,14 @@ func (w *siteWalker) walk(n *ast.Node, parent *ast.Node, idxInParent int, sameTy
 		switch parent.Type() {
 		case ll.TypeDef:
 			// type definition name
+			w.locals = append(w.locals, n.Text()[1:])
 		case ll.NamedType:
 			w.add("use:named type", n)
 		case ll.LocalDefInst, ll.LocalDefTerm, ll.Param:
 			// definition
+			if t := n.Text(); !isUnnamedIdent(t) {
+				w.locals = append(w.locals, t[1:])
+			}
 		case ll.Label:
 			w.add("use:label", n)
 		case ll.Inc:
@@ -153,9 +165,28 @@ func (w *siteWalker) walk(n *ast.Node, parent *ast.Node, idxInParent int, sameTy
 		if name := n.Child(selector.LocalIdent); name != nil && !isUnnamedIdent(name.Text()) {
 			w.sites = append(w.sites, Site{Kind: "dup:local", Off: n.Offset(), End: n.Endoffset(), Text: n.Text(), InsertAt: n.Endoffset(), Insert: "\n\t" + n.Text()})
 		}
+	case ll.FuncBody:
+		// A named value-producing terminator (invoke) given the name of an
+		// earlier named instruction of the same function.
+		var firstInst *ast.Node
+		for _, bb := range n.Children(selector.BasicBlock) {
+			for _, c := range nodeKids(bb) {
+				switch c.Type() {
+				case ll.LocalDefInst:
+					if id := c.Child(selector.LocalIdent); id != nil && !isUnnamedIdent(id.Text()) && firstInst == nil {
+						firstInst = id
+					}
+				case ll.LocalDefTerm:
+					if id := c.Child(selector.LocalIdent); id != nil && !isUnnamedIdent(id.Text()) && firstInst != nil && firstInst.Text() != id.Text() {
+						w.sites = append(w.sites, Site{Kind: "dup:local (terminator result renamed to an instruction's name)", Off: id.Offset(), End: id.Endoffset(), Text: id.Text(), Replace: firstInst.Text()})
+					}
+				}
+			}
+		}
 	case ll.BasicBlock:
 		if name := n.Child(selector.LabelIdent); name != nil {
 			lbl := name.Text()
+			w.locals = append(w.locals, strings.TrimSuffix(lbl, ":"))
 			if !isUnnamedIdent("%" + strings.TrimSuffix(lbl, ":")) {
 				w.sites = append(w.sites, Site{Kind: "dup:label", Off: name.Offset(), End: name.Endoffset(), Text: lbl, InsertAt: n.Endoffset(), Insert: "\n" + lbl + "\n\tunreachable"})
 			}
@@ -194,6 +225,40 @@ func c05Sites(name, text string) ([]Site, error) {
 	}
 	w := &siteWalker{text: text}
 	w.walk(tree.Root(), tree.Root(), 0, 0)
+	// Cross-namespace alternatives.
+	isIn := func(set []string, x string) bool {
+		for _, y := range set {
+			if y == x {
+				return true
+			}
+		}
+		return false
+	}
+	pick := func(cands []string, sigil string, taken []string) string {
+		for _, c := range cands {
+			if strings.ContainsAny(c, "\\\" ") || isIn(taken, c) {
+				continue
+			}
+			if !strings.Contains(text, sigil+c) {
+				return sigil + c
+			}
+		}
+		return ""
+	}
+	altLocal := pick(w.globals, "%", w.locals)  // %g where only @g exists (no local, label or type of that name anywhere)
+	altGlobal := pick(w.locals, "@", w.globals) // @x where only %x exists
+	altComdat := pick(w.globals, "$", nil)      // $g where only @g exists
+	for i := range w.sites {
+		k := w.sites[i].Kind
+		switch {
+		case strings.HasPrefix(k, "use:local"), strings.HasPrefix(k, "use:label"), strings.HasPrefix(k, "use:phi"), strings.HasPrefix(k, "use:named type"), strings.HasSuffix(k, " block"):
+			w.sites[i].Alt = altLocal
+		case strings.HasPrefix(k, "use:global"), strings.HasSuffix(k, " function"):
+			w.sites[i].Alt = altGlobal
+		case strings.HasPrefix(k, "use:comdat"):
+			w.sites[i].Alt = altComdat
+		}
+	}
 	return w.sites, nil
 }
 
@@ -217,9 +282,12 @@ func freshIdent(text, old string) string {
 }
 
 // applyFault returns the faulted text.
-func applyFault(text string, s Site) string {
+func applyFault(text string, s Site, cross bool) string {
 	switch {
 	case strings.HasPrefix(s.Kind, "use:"):
+		if cross && s.Alt != "" {
+			return text[:s.Off] + s.Alt + text[s.End:]
+		}
 		return text[:s.Off] + freshIdent(text, text[s.Off:s.End]) + text[s.End:]
 	case s.Replace != "":
 		return text[:s.Off] + s.Replace + text[s.End:]
@@ -279,7 +347,7 @@ func c05Run(sc *C05Scenario) *c05Outcome {
 		out.skip = "site does not fit the module text (stale replay file)"
 		return out
 	}
-	faulted := applyFault(text, sc.Site)
+	faulted := applyFault(text, sc.Site, sc.Cross)
 	if _, err := ast.Parse(sc.Module, faulted); err != nil {
 		out.skip = "faulted text is not accepted by the grammar (site discarded)"
 		return out
@@ -376,28 +444,36 @@ func c05Search() {
 				sum.Skipped["sites not sampled in the quick tier"]++
 				continue
 			}
-			sc := &C05Scenario{Module: cf.Name, Index: i, Site: s, Orders: orders, Seed: derive(*flagSeed, fmt.Sprintf("C05/%s/%d", cf.Name, i))}
-			curScenario = sc
-			o := c05Run(sc)
-			if o.skip != "" {
-				sum.Skipped[o.skip]++
-				continue
-			}
-			sum.Runs += int64(o.orders)
-			sum.Counters["faulted inputs"]++
-			sum.Counters["fault kind "+siteClass(s.Kind)]++
-			sum.Counters["map-range visits in non-canonical order"] += o.nonIdentity
-			if o.doubt {
-				sum.Skipped["injector doubt: llvm-as accepts the faulted text too"]++
-			}
-			distinct.add(hash64(cf.Name, s.Kind, fmt.Sprint(s.Off), fmt.Sprint(s.End)))
-			if len(sum.Samples) < 4 && (u%211 == 7) {
-				sum.Samples = append(sum.Samples, map[string]interface{}{"module": cf.Name, "kind": s.Kind, "site": clip(s.Text, 60), "offset": s.Off, "orders": o.orders})
-			}
-			if o.class != "" {
-				failures++
-				sum.Failures++
-				emit(outRec{T: "fail", Property: "C05", Seed: sc.Seed, Class: o.class, Sig: o.sig, Detail: o.detail, Replay: sc})
+			for _, cross := range []bool{false, true} {
+				if cross && (s.Alt == "" || !strings.HasPrefix(s.Kind, "use:")) {
+					continue
+				}
+				sc := &C05Scenario{Module: cf.Name, Index: i, Site: s, Cross: cross, Orders: orders, Seed: derive(*flagSeed, fmt.Sprintf("C05/%s/%d", cf.Name, i))}
+				curScenario = sc
+				o := c05Run(sc)
+				if o.skip != "" {
+					sum.Skipped[o.skip]++
+					continue
+				}
+				sum.Runs += int64(o.orders)
+				sum.Counters["faulted inputs"]++
+				if cross {
+					sum.Counters["faulted inputs redirected to a name defined in another namespace"]++
+				}
+				sum.Counters["fault kind "+siteClass(s.Kind)]++
+				sum.Counters["map-range visits in non-canonical order"] += o.nonIdentity
+				if o.doubt {
+					sum.Skipped["injector doubt: llvm-as accepts the faulted text too"]++
+				}
+				distinct.add(hash64(cf.Name, s.Kind, fmt.Sprint(s.Off), fmt.Sprint(s.End), fmt.Sprint(cross)))
+				if len(sum.Samples) < 4 && (u%211 == 7) {
+					sum.Samples = append(sum.Samples, map[string]interface{}{"module": cf.Name, "kind": s.Kind, "site": clip(s.Text, 60), "offset": s.Off, "orders": o.orders, "cross_namespace": cross})
+				}
+				if o.class != "" {
+					failures++
+					sum.Failures++
+					emit(outRec{T: "fail", Property: "C05", Seed: sc.Seed, Class: o.class, Sig: o.sig, Detail: o.detail, Replay: sc})
+				}
 			}
 		}
 	}
